@@ -89,6 +89,40 @@ type Violation struct {
 	Count  int
 }
 
+func (cx *Ctx) phase(name string) {
+	fmt.Fprintf(os.Stderr, "[%6.1fs] %s\n", time.Since(cx.Start).Seconds(), name)
+}
+
+// slowest prints the slowest jobs of a batch (diagnostics on stderr only).
+func (cx *Ctx) slowest(rs []JobResult, n int) {
+	type sl struct {
+		ms float64
+		i  int
+	}
+	var all []sl
+	tot := 0.0
+	for i, r := range rs {
+		if r.Res != nil {
+			all = append(all, sl{r.Res.WallMs, i})
+			tot += r.Res.WallMs
+		}
+	}
+	sort.Slice(all, func(a, b int) bool { return all[a].ms > all[b].ms })
+	fmt.Fprintf(os.Stderr, "  total worker time %.1fs over %d jobs; slowest:\n", tot/1000, len(all))
+	for k := 0; k < n && k < len(all); k++ {
+		j := rs[all[k].i].Job
+		v := ""
+		for _, o := range rs[all[k].i].Res.Outcomes {
+			v += o.Verdict + "/" + o.Detail + " "
+		}
+		e := edgesText(j.Calls[0].Edges)
+		if len(e) > 100 {
+			e = e[:100] + "..."
+		}
+		fmt.Fprintf(os.Stderr, "   %8.0fms  %d edges  %s  [%s] %s\n", all[k].ms, len(j.Calls[0].Edges), optsText(j.Calls[0].Opts), v, e)
+	}
+}
+
 func (cx *Ctx) trouble(format string, a ...any) {
 	msg := fmt.Sprintf(format, a...)
 	cx.Trouble = append(cx.Trouble, msg)
@@ -125,7 +159,7 @@ func main() {
 	cx.Start = time.Now()
 	cx.EvPath = filepath.Join(cx.Verif, "evidence", cx.Prop+".json")
 	cx.knownHit = map[string]bool{}
-	cx.Budgets = spec.Budgets{Ticks: 30_000_000, Depth: 50_000, Bytes: 3 << 30}
+	cx.Budgets = budgetFor(40, 40)
 	if b, err := os.ReadFile(cx.SeamsPath); err == nil {
 		cx.seamsRaw = b
 		json.Unmarshal(b, &cx.Seams)
@@ -133,10 +167,14 @@ func main() {
 		fmt.Fprintln(os.Stderr, "cannot read seams:", err)
 		os.Exit(2)
 	}
-	cx.sim = &Pool{Bin: cx.SimBin, Args: []string{"-seams", cx.SeamsPath}, N: cx.Workers, Timeout: 300 * time.Second}
-	cx.simFresh = &Pool{Bin: cx.SimBin, Args: []string{"-seams", cx.SeamsPath}, N: cx.Workers, Fresh: true, Timeout: 300 * time.Second}
-	cx.real = &Pool{Bin: cx.RealBin, Args: []string{"-real", "-seams", cx.SeamsPath}, N: cx.Workers, Timeout: 20 * time.Second}
-	cx.realFresh = &Pool{Bin: cx.RealBin, Args: []string{"-real", "-seams", cx.SeamsPath}, N: cx.Workers, Fresh: true, Timeout: 20 * time.Second}
+	cx.sim = newPool(cx.SimBin, []string{"-seams", cx.SeamsPath}, cx.Workers, false, 1500*time.Second)
+	cx.simFresh = newPool(cx.SimBin, []string{"-seams", cx.SeamsPath}, cx.Workers, true, 1500*time.Second)
+	cx.real = newPool(cx.RealBin, []string{"-real", "-seams", cx.SeamsPath}, cx.Workers, false, 20*time.Second)
+	cx.realFresh = newPool(cx.RealBin, []string{"-real", "-seams", cx.SeamsPath}, cx.Workers, true, 20*time.Second)
+	// the simulated workers run one goroutine at a time; two Ps are plenty (GC helper)
+	cx.sim.Env = []string{"GOMAXPROCS=2"}
+	cx.simFresh.Env = []string{"GOMAXPROCS=2"}
+	defer func() { cx.sim.Close(); cx.real.Close() }()
 	cx.loadKnown()
 
 	if replay != "" {
@@ -158,7 +196,10 @@ func main() {
 		fmt.Fprintln(os.Stderr, "unknown property", cx.Prop)
 		os.Exit(2)
 	}
-	os.Exit(cx.finish())
+	code := cx.finish()
+	cx.sim.Close()
+	cx.real.Close()
+	os.Exit(code)
 }
 
 func (cx *Ctx) loadKnown() {
@@ -267,6 +308,7 @@ func (cx *Ctx) finish() int {
 
 // replayKnown re-runs the stored replay of every open known finding of this property.
 func (cx *Ctx) replayKnown() (confirmed []string) {
+	confirmed = []string{}
 	for _, k := range cx.Known {
 		if k.Status != "open" || k.Replay == "" {
 			continue
